@@ -237,7 +237,14 @@ def check(case, ctx):
             # (a small error at M=1 can be a lucky cancellation of error terms of opposite sign, so growth relative to M=1
             # counts only if the error is not clearly shrinking between the two finest discretisations either)
             if er[1] > 1e-8 and er[8] > 2.0 * er[1] and er[8] > 0.9 * er[4]:
-                fails.append(Fail("error-grows-with-M", dict(feats, quantity=name), {"errors": er}))
+                # M <= 8 can still be pre-asymptotic (large first-order steps, oscillating integrands): decide on a finer pair
+                fine = {}
+                for Mf in (16, 32):
+                    df = discrete(case, Mf, rng)
+                    fine[Mf] = float(np.max(np.abs(np.asarray(df["xf"] - xe, dtype=float)))) if name == "state" else float(abs(df["I"] - Ie))
+                ctx.count("escalated_to_M32")
+                if fine[32] > 2.0 * er[1] and fine[32] > 0.9 * fine[16]:
+                    fails.append(Fail("error-grows-with-M", dict(feats, quantity=name), {"errors": {**er, **fine}}))
                 continue
             # observed order on the two finest pairs whose (dominant-component) errors have the same sign and lie above the
             # round-off floor; a single sign change of the error (leading coefficient cancelling the next one) depresses at most
